@@ -103,6 +103,11 @@ def byte_sweep():
     return lines
 
 
+# "huge sizes" family: views of 2^31-1, 2^31, 2^31+1, 2^32-1, 2^32, 2^32+1, 2^32+2^31 zero bytes (read-only mapping) against
+# these short needles; only queries that touch the ends of the view (harness block G)
+HUGE_NEEDLES = ["-", "00", "0000", "000000", "61", "0061", "6100"]
+
+
 def null_view_cases():
     """default-constructed views (data() == nullptr) on either side, against every needle/hay of length <= 2"""
     small = [[]] + [[a] for a in ALPHA_BYTES] + [[a, b] for a in ALPHA_BYTES for b in ALPHA_BYTES]
@@ -136,6 +141,7 @@ else:
         if k == 0:
             ls += corpus
             ls += null_view_cases()
+            ls += ["huge %s" % s for s in HUGE_NEEDLES]
         ls.append("enum %s %d %d %d %d %d %d" % (ALPHA, maxh, maxs, c5h, c5s, k, PARTS))
         ls.append("aenum %s 0 %d %d %d" % (ALPHA, afull, k, PARTS))
         ls.append("aenum 0061ff %d %d %d %d" % (asmall, asmall, k, PARTS))
@@ -152,7 +158,7 @@ exe, log = ck.build_cpp("c18_harness", ["harness/C18/sv_harness.cpp"], flags=FLA
 drv, dlog = ck.ocaml_driver("C18")
 
 found = False
-stats = {"blocks_H": 0, "blocks_P": 0, "blocks_C": 0, "blocks_M": 0, "blocks_A": 0, "blocks_with_nullptr_view": 0,
+stats = {"blocks_G": 0, "huge_blocks_unavailable": 0, "blocks_H": 0, "blocks_P": 0, "blocks_C": 0, "blocks_M": 0, "blocks_A": 0, "blocks_with_nullptr_view": 0,
          "alias_same_start_diff_len": 0, "alias_same_end_diff_start": 0, "alias_identical": 0, "alias_adjacent": 0,
          "alias_overlapping": 0, "alias_disjoint": 0}
 hist = {}
@@ -186,7 +192,8 @@ def run_verbose(tool, line):
 
 def block_line(kind, h, s):
     return {"H": "hay %s" % h, "P": "pair %s %s" % (h, s), "C": "cmp5 %s %s" % (h, s),
-            "M": "mid %s %s" % (h, s.replace(",", " ")), "A": "alias %s %s" % (h, s.replace(",", " "))}[kind]
+            "M": "mid %s %s" % (h, s.replace(",", " ")), "A": "alias %s %s" % (h, s.replace(",", " ")),
+            "G": "huge %s %s" % (s, h)}[kind]
 
 
 def hexlen(x):
@@ -235,6 +242,9 @@ else:
         for a, b in zip(impl, model):
             fa = a.split(" ", 8); fb = b.split()
             kind, h, s, ncalls, ht, hs, nmis = fa[1], fa[2], fa[3], int(fa[4]), fa[5], fa[6], int(fa[7])
+            if kind == "G" and ncalls == 0:
+                stats["huge_blocks_unavailable"] += 1      # mmap of the 6 GiB zero mapping failed on this machine
+                continue
             nblocks += 1
             evaluations += ncalls
             stats["blocks_" + kind] += 1
@@ -312,7 +322,13 @@ ck.finish({
             "for every pos, find/rfind(const char*), compare(pos1,n1,x), compare(pos1,n1,x,pos2,n2)) with BOTH views being sub-ranges of one "
             "heap buffer (same start/different length, same end, identical, adjacent, overlapping, disjoint: counted in input_distribution), "
             "M = the unary queries on a view in the middle of a larger buffer (reads outside the view hit foreign bytes, not redzones); "
-            "'~' operands are default-constructed views (data() == nullptr). Complete enumeration: " + enum_desc +
+            "'~' operands are default-constructed views (data() == nullptr); "
+            "G = huge sizes: views of 2^31-1, 2^31, 2^31+1, 2^32-1, 2^32, 2^32+1, 2^32+2^31 zero bytes over a read-only MAP_NORESERVE mapping "
+            "against 7 short needles: compare in all overloads (pos near the end, counts 2^31, 2^32+1, npos-1, npos), the six operators in "
+            "both directions, starts/ends_with, substr / remove_prefix / remove_suffix / copy arithmetic (size() and data() offset), at/[]/back, "
+            "forward searches from the last bytes and the backward searches that stop at the end; for these blocks the model is evaluated via the "
+            "locality theorems of coq/C18/Window.v (size as N through the extracted *_dims functions, bytes as the short window of zeros the "
+            "query looks at), not on a 2^32-element list. Complete enumeration: " + enum_desc +
             "; then the corpus of defect witnesses, default-constructed views against all operands of length <= 2, a sweep over all 256 byte "
             "values, and VERIF_SEED-dependent random strings of length 5..12 and 13..40 (needles cut out of the haystack, aliasing ranges). "
             "Every block also uses positions/counts 2^32, 2^32+1 and npos-1; every count argument (substr, copy, compare(pos1,n1,..) for needles "
@@ -331,4 +347,7 @@ ck.finish({
     "calls whose behaviour std::string_view leaves undefined are not made: operator[] / front / back out of range, remove_prefix/suffix(n > size()), copy() into a destination overlapping the view",
     "throwing calls of compare(pos1,n1,...) are enumerated with n1 in {0, npos} only (the count is irrelevant once pos1 > size())",
     "extraction: ExtrOcamlBasic only; N/Z/list stay Coq inductives",
+    "huge-size blocks: the driver passes (size, window bytes) to the extracted model instead of the whole byte list, justified by the proved "
+    "theorems C18_compare_window, C18_operators_window, C18_substr_compare_factor, C18_starts_ends_with_window, C18_find_shift, C18_rfind_shift "
+    "(and their siblings in coq/C18/Window.v); the choice of window offsets in ocaml/C18_driver.ml is hand-written",
 ])
